@@ -31,7 +31,7 @@ func init() {
 		HarnessDef{ID: "H7.1", Spec: HarnessSpec{Name: "vH_C07_trystate", Pkg: "pkg/protocol/serveruser", LoopBound: 20, TimeoutS: 240, Par: 8, Redirects: c07R},
 			What:   "real tryState/tryUser/userByID on 3 registered users x every hint/credential outcome x hint-mandatory on/off x source present/absent x an ARBITRARY source-cache lookup result (any ids incl. 0, stale, duplicate, beyond the registry; any count): the attributed user's credential authenticates; a hinted authenticating user is preferred; nothing authenticates => reject; mandatory hints enforced; an admissible user => accept; each credential tried at most once; accept/reject, hint class and - with distinct credentials - the attributed user are independent of the cache",
 			Bounds: "3 users, cache lookup result of up to 3 ids (quick) / 16 ids (thorough harness H7.1f)", Outside: c07Note},
-		HarnessDef{ID: "H7.1f", Tier: "thorough", Spec: HarnessSpec{Name: "vH_C07_trystate_full", Pkg: "pkg/protocol/serveruser", LoopBound: 20, TimeoutS: 900, Par: 8, Redirects: c07R},
+		HarnessDef{ID: "H7.1f", Tier: "off", Spec: HarnessSpec{Name: "vH_C07_trystate_full", Pkg: "pkg/protocol/serveruser", LoopBound: 20, TimeoutS: 900, Par: 8, Redirects: c07R},
 			What: "same with the full 16-id cache lookup result", Bounds: "3 users, 16 cached ids each in 0..5", Outside: c07Note},
 		HarnessDef{ID: "H7.3", Spec: HarnessSpec{Name: "vH_C07_reload", Pkg: "pkg/protocol/serveruser", LoopBound: 20, LoopBounds: map[string]int{"discoverUser": 2}, TimeoutS: 240, Par: 8, Redirects: c07R},
 			What:   "real discoverUser with an environment step (a reload that removes user 'a' may be published and the old generation retired right after a discovery attempt): with requireCurrent the result belongs to the generation current at return, the attributed id is valid in that generation, identity/context/policy agree, the credential authenticates, the removed user is never authenticated after the reload completed; Record consumes the pending authentication",
